@@ -126,11 +126,21 @@ func checkC20(c *Ctx, r *Report) {
 	defErr := false
 	for _, ri := range returnsOf(validate) {
 		if len(ri.Vals) == 2 {
-			if call, ok := ri.Vals[1].(*ssa.Call); ok {
+			// the error returned may be built where it is returned, or reach the return through a
+			// result variable (an extracted `validateServiceNameList` whose error the caller hands on)
+			for _, lf := range leavesOf(ri.Vals[1]) {
+				call, ok := lf.val.(*ssa.Call)
+				if !ok {
+					continue
+				}
 				if obj := calleeObj(&call.Call); obj != nil && (isFunc(obj, "errors", "New") || isFunc(obj, "fmt", "Errorf")) {
 					// inside the loop over the service list, and on the path on which no name matched: not
 					// reachable (within the iteration) from the matching edge of any name comparison
-					if (inCycle(ri.At) || dominatedByRange(ri.Point())) && !reachedFromNameMatch(validate, ri.At) {
+					at := call.Block()
+					if lf.from == nil && call.Block() == ri.Ret.Block() {
+						at = ri.At
+					}
+					if (inCycle(at) || dominatedByRange(call)) && !reachedFromNameMatch(validate, at) {
 						defErr = true
 					}
 				}
